@@ -314,6 +314,11 @@ func vfC13Judge(w *vfWorld, cfg *vfCfg, sc *vfC13Scenario, b *vfBrowser, r *vfRe
 			if ev.Name == "GET" && ev.Fault.Kind != vfRFSlow && served {
 				w.violate("C13", "served-after-failed-read", sc.Name, "%s: session read #%d failed/altered, yet served", label, ev.Idx)
 			}
+			// the lock operation itself failed (an error or a timeout was returned to the proxy - not "somebody else holds
+			// it", which is an ordinary answer): the refresh must not go ahead as if the lock were held
+			if ev.LockOp == "obtain" && ev.Err != "" && served {
+				w.violate("C13", "served-after-failed-lock", sc.Name, "%s: obtaining the refresh lock failed (%s), yet the request was served as authenticated", label, ev.Err)
+			}
 		}
 	case "ready":
 		if pingFailed && r.Status == 200 {
